@@ -24,6 +24,10 @@ import (
 type sweepBase struct {
 	Obj   gen.Obj
 	Lints []string
+	// Exclude (instead of Lints): lint with everything but these
+	Exclude []string
+	// KeyLeavesOnly restricts the sweep to leaves inside the subjectPublicKeyInfo
+	KeyLeavesOnly bool
 }
 
 // homeCover computes the cover for quota K per lint (deterministic).
@@ -160,6 +164,19 @@ func sweepBases(rec *stats.Rec, cover []sweepBase, extra []sweepVariant, withExp
 			variants = append(variants, extra...)
 		}
 		filters := []engine.FilterSpec{{IncludeNames: b.Lints}}
+		if len(b.Lints) == 0 {
+			filters = []engine.FilterSpec{{ExcludeNames: b.Exclude}}
+			if len(b.Exclude) == 0 {
+				filters = nil
+			}
+		}
+		var keyLeaf map[*dt.Node]bool
+		if b.KeyLeavesOnly {
+			keyLeaf = map[*dt.Node]bool{}
+			if v, err := gen.ViewCertTree(root); err == nil {
+				v.SPKI().Walk(func(x, _ *dt.Node, _ int) { keyLeaf[x] = true })
+			}
+		}
 		reg, cfg, restore, err := engine.BuildRegistry(engine.Case{Filters: filters})
 		restore()
 		if err != nil {
@@ -167,6 +184,9 @@ func sweepBases(rec *stats.Rec, cover []sweepBase, extra []sweepVariant, withExp
 		}
 		nl := len(root.Leaves())
 		for li := 0; li < nl; li++ {
+			if keyLeaf != nil && !keyLeaf[root.Leaves()[li]] {
+				continue
+			}
 			unit++
 			if !stats.Mine(unit) {
 				continue
